@@ -833,29 +833,41 @@ def check_C18(chk):
     else:
         combos = [(k, res, pos, mode, ap, nested) for k in ks for res in (1, 0) for pos in ("first", "middle", "last")
                   for mode in ("forked", "inproc") for ap in (True, False) for nested in (True, False)]
+    # a second test that fills the channel in the same run (its first three checks fail): matters where the first
+    # one does not end the run
+    combos = [c + (0,) for c in combos]
+    seconds = [(cap, "inproc"), (cap + 5, "inproc"), (2 * cap, "forked"), (cap - 1, "inproc")]
+    if chk.tier == "thorough":
+        seconds += [(cap, "forked"), (3 * cap, "inproc"), (cap + 1, "inproc"), (cap - 2, "forked")]
+    for i, (k2, mode) in enumerate(seconds):
+        combos.append(((cap + 3) if i % 2 == 0 else cap, 1, ("first", "middle")[i % 2], mode, True, i % 2 == 0, k2))
     cases, meta = [], []
-    for k, res, pos, mode, allpass, nested in combos:
+    for k, res, pos, mode, allpass, nested, k2 in combos:
         big = L.Test(1, body=[("c", res)] * k)
         before = L.Test(0, body=[("c", 1), ("c", 1), ("c", 1 if allpass else 0)])
         after = L.Test(2, body=[("c", 1)] * 5)
         order = {"first": [big, before, after], "middle": [before, big, after], "last": [before, after, big]}[pos]
+        if k2:
+            order = order + [L.Test(3, body=[("c", 0)] * 3 + [("c", 1)] * (k2 - 3))]
         if nested:
             root = L.Suite(0, children=[L.Suite(1, children=order)])
         else:
             root = L.Suite(0, children=order)
         cases.append((root, "text", mode))
-        meta.append((k, res, pos, allpass))
+        meta.append((k, res, pos, allpass, k2))
     lines = [L.model_case(r, rep, m, cap) for r, rep, m in cases]
     mrs = [L.ModelResult(l) for l in vlib.run_model("runner", lines)]
     with ThreadPoolExecutor(vlib.NPROC) as ex:
         runs = list(ex.map(lambda c: L.run_impl(drv, c[0], c[1], c[2], timeout=120), cases))
-    for (root, rep, mode), (k, res, pos, allpass), run, mr in zip(cases, meta, runs, mrs):
+    for (root, rep, mode), (k, res, pos, allpass, k2), run, mr in zip(cases, meta, runs, mrs):
         account(chk, root, rep, mode)
+        if k2:
+            chk.count("second-big-test:%s" % ("cap%+d" % (k2 - cap) if abs(k2 - cap) <= 5 else str(k2)))
         chk.count("checks:%s" % ("cap%+d" % (k - cap) if abs(k - cap) <= 2 else str(k)))
-        overflow = k + 1 > cap
+        overflow = k + 1 > cap or k2 + 1 > cap
         dis = cmp_c.model_vs_impl(root, rep, mode, run, mr, overflow=overflow)
         chk.cov["disagreements_checked"] += 1
-        rp = lambda: {"checks_in_big_test": k, "result_of_each": res, "position": pos, "mode": mode, "capacity": cap,
+        rp = lambda: {"checks_in_big_test": k, "checks_in_second_big_test_t3_first_three_fail": k2, "result_of_each": res, "position": pos, "mode": mode, "capacity": cap,
                       "exit": run.exit, "tdone": L.log_tdone(run), "stdout_tail": run.stdout[-1500:],
                       "how": "scenario: tests t0 (pass,pass,fail), t1 (k checks), t2 (5 passes) in the given order; run harness/scn_driver"}
         if dis:
@@ -864,9 +876,9 @@ def check_C18(chk):
         if run.timeout:
             chk.violation("nontermination", "run with %d checks did not terminate" % k, rp())
             continue
-        if mode == "inproc" and overflow:
-            if run.exit == 0:
-                chk.violation("inproc-overflow-success", "in-process run overflowed the channel and still exited 0", rp())
+        if mode == "inproc" and overflow and run.exit != 0:
+            # the runner's own process is the one that overflows: the whole run ends there with failure status,
+            # which is the second alternative of the property (exception, failing verdict)
             continue
         td = dict(L.log_tdone(run))
         big = td.get("t1")
@@ -882,14 +894,27 @@ def check_C18(chk):
                 chk.violation("exception-but-success", "the test is an exception but the verdict is success", rp())
             if counted > k or (res and big[1]) or (not res and big[0]):
                 chk.violation("miscounted", "%d checks executed but %s counted" % (k, big[:2]), rp())
-            if not overflow:
+            if not k + 1 > cap:
                 chk.violation("spurious-exception", "%d checks (+ marker) fit the channel of %d records but the test is an exception" % (k, cap), rp())
         exp0 = (3, 0, 0, 0) if allpass else (2, 1, 0, 0)
         if td.get("t0") not in (None, exp0) or td.get("t2") not in (None, (5, 0, 0, 0)):
             chk.violation("misplaced", "neighbours credited %s / %s instead of %s / (5,0,0,0)" % (td.get("t0"), td.get("t2"), exp0), rp())
         if "t0" not in td or "t2" not in td:
             chk.violation("neighbour-missing", "a neighbour of the big test was not reported", rp())
-        bad = (not allpass) or big[1] > 0 or big[3] > 0 or (not res and k > 0)
+        second_bad = False
+        if k2:
+            b2 = td.get("t3")
+            if b2 is None:
+                chk.violation("big-test-missing", "the second big test (%d checks) was not reported" % k2, rp())
+                continue
+            if b2[3] == 0 and (b2[0], b2[1]) != (k2 - 3, 3):
+                chk.violation("lost-or-duplicated", "second big test: %d checks executed (3 failing), %s counted, no exception" % (k2, b2[:2]), rp())
+            if b2[3] and (b2[0] > k2 - 3 or b2[1] > 3):
+                chk.violation("miscounted", "second big test: %d checks executed (3 failing) but %s counted" % (k2, b2[:2]), rp())
+            if b2[3] and k2 + 1 <= cap:
+                chk.violation("spurious-exception", "second big test: %d checks (+ marker) fit the channel of %d records but the test is an exception" % (k2, cap), rp())
+            second_bad = True       # three failing checks, or an exception
+        bad = (not allpass) or big[1] > 0 or big[3] > 0 or (not res and k > 0) or second_bad
         if (run.exit != 0) != bad:
             chk.violation("verdict", "verdict %s but %s" % ("failure" if run.exit else "success",
                           "a check failed or the test is an exception" if bad else "nothing failed"), rp())
